@@ -22,7 +22,7 @@ def run(ctx):
     c = ctx.counters
     ev = sum(c.get(k, 0) for k in ("argument_vectors", "command_lines", "launches", "io_runs", "exit_code_runs"))
     cov = {"evaluations": int(ev), "distinct_nontrivial": int(c.get("distinct_nontrivial", 0)),
-           "rule": "Arguments: every argument vector of <= %d strings over {-a -ab -abo -oX -o -abc - -- --aa --out=X --out --opt --opt=X --zz --aa=X X '' -ba --out=} "
+           "rule": "Arguments: every argument vector of <= %d strings over {-a -ab -abo -oX -o -abc - -- --aa --out=X --out --opt --opt=X --zz --aa=X X '' -ba --out= --o=X --=X} "
                    "(each string and the vector in exactly sized heap blocks under ASan) against glibc getopt_long in return-in-order mode (\"-:abo:\", exact long names) "
                    "mapped to (character, argument) sequences; command lines: every line of <= 3 words over {a a\\\\b \"\" \"a b\" \"a\\\\\"b\" a\"b c\"d \"a\\\\b\"} through "
                    "Process::open(commandLine) against a helper child that echoes its argv, with a reference splitter and a watchdog; launch: 5 argument vectors x "
